@@ -1,8 +1,13 @@
 package props
 
 import (
+	"context"
 	"errors"
 	"fmt"
+	"io"
+	"net"
+	"net/http"
+	"os"
 	"strings"
 	"sync"
 	"time"
@@ -41,7 +46,26 @@ const (
 	evCb
 )
 
-type c20Trace struct{ ev []uint16 }
+type c20Trace struct {
+	ev  []uint16
+	err error // error value returned by failing logic steps (nil: errC20)
+}
+
+// c20ErrKinds: error values a failing logic step may return. The statement speaks of "logic error": every non-nil error is one.
+type c20EmptyErr struct{}
+
+func (c20EmptyErr) Error() string { return "" }
+
+var c20ErrKinds = []struct {
+	Name string
+	Err  error
+}{
+	{"context.Canceled", context.Canceled}, {"context.DeadlineExceeded", context.DeadlineExceeded},
+	{"wrapped-context.Canceled", fmt.Errorf("storage: %w", context.Canceled)}, {"wrapped-context.DeadlineExceeded", fmt.Errorf("storage: %w", context.DeadlineExceeded)},
+	{"io.EOF", io.EOF}, {"io.ErrUnexpectedEOF", io.ErrUnexpectedEOF}, {"sql.ErrNoRows-like", errors.New("sql: no rows in result set")},
+	{"error-with-empty-text", c20EmptyErr{}}, {"joined-errors", errors.Join(errC20, context.Canceled)}, {"http.ErrAbortHandler", http.ErrAbortHandler},
+	{"os.ErrNotExist", os.ErrNotExist}, {"net-timeout", &net.DNSError{IsTimeout: true, Err: "timeout"}},
+}
 
 func (t *c20Trace) add(step, kind int) { t.ev = append(t.ev, uint16(step<<4|kind)) }
 
@@ -89,6 +113,9 @@ func c20Build(chain []int, t *c20Trace) *checker.Checker {
 			var e error
 			if sym.Fail || sym.Cond == 2 {
 				e = errC20
+				if t.err != nil {
+					e = t.err
+				}
 			}
 			cond := sym.Cond == 1
 			c.WithConditionalLogicStep(func() bool { t.add(i, evCond); return cond }, func() error { t.add(i, evBody); return e }, cb)
@@ -96,6 +123,9 @@ func c20Build(chain []int, t *c20Trace) *checker.Checker {
 			var e error
 			if sym.Fail {
 				e = errC20
+				if t.err != nil {
+					e = t.err
+				}
 			}
 			c.WithLogicStep(func() error { t.add(i, evBody); return e }, cb)
 		case 7:
@@ -222,15 +252,27 @@ func init() { Registry["C20"] = runC20 }
 
 func runC20(ctx Ctx) int {
 	run := ev.NewRun("C20")
-	run.Rule = "full product of step-symbol chains (17 symbols = 8 step kinds x {pass, fail, condition-false}) executed on the real checker.Checker with recording closures; each chain evaluated twice; plus per-kind parameter products"
+	run.Rule = "full product of step-symbol chains (17 symbols = 8 step kinds x {pass, fail, condition-false}) executed on the real checker.Checker with recording closures; each chain evaluated twice; every chain of length <= 3 that contains a failing logic step again with 12 other error values (context.Canceled / DeadlineExceeded plain and wrapped, io, os, net and http sentinel errors, an error with empty text, joined errors); plus per-kind parameter products"
 	run.Assume = []string{"the number of times a value getter is invoked is not constrained (the statement does not fix it)", "body evaluation of a conditional step whose condition is false is not constrained"}
 	if ctx.Replay != "" {
 		var chain []int
-		if err := loadReplay(ctx.Replay, &chain); err != nil {
-			fmt.Println("replay:", err)
-			return 2
+		var withErr struct {
+			Chain []int  `json:"chain"`
+			Err   string `json:"logic_error"`
 		}
 		t := &c20Trace{}
+		if err := loadReplay(ctx.Replay, &chain); err != nil {
+			if err2 := loadReplay(ctx.Replay, &withErr); err2 != nil {
+				fmt.Println("replay:", err)
+				return 2
+			}
+			chain = withErr.Chain
+			for _, k := range c20ErrKinds {
+				if k.Name == withErr.Err {
+					t.err = k.Err
+				}
+			}
+		}
 		cl, d := c20Run(chain, t)
 		fmt.Printf("replay C20: chain=%v clause=%q %s\n", c20Names(chain), cl, d)
 		if cl != "" {
@@ -357,6 +399,44 @@ func runC20(ctx Ctx) int {
 				}
 			}
 		}
+	}
+	// error values: every chain of length <= 3 again with each of 12 other error values returned by the failing logic steps
+	// (context errors plain and wrapped, io / os / net sentinel errors, an error with empty text, joined errors)
+	{
+		var chains [][]int
+		var gen func(p []int)
+		gen = func(p []int) {
+			hasLogic := false
+			for _, s := range p {
+				if k := c20Syms[s].Kind; (k == 5 || k == 6) && (c20Syms[s].Fail || c20Syms[s].Cond == 2) {
+					hasLogic = true
+				}
+			}
+			if hasLogic {
+				chains = append(chains, append([]int{}, p...))
+			}
+			if len(p) == 3 {
+				return
+			}
+			for s := range c20Syms {
+				gen(append(p, s))
+			}
+		}
+		gen(nil)
+		parallel(len(c20ErrKinds), time.Time{}, func(ki int) {
+			k := c20ErrKinds[ki]
+			tt := &c20Trace{err: k.Err}
+			for _, chain := range chains {
+				cl, d := c20Run(chain, tt)
+				run.Evaluations.Add(1)
+				run.AddStates(1)
+				run.Transitions.Add(2)
+				if cl != "" {
+					run.Violate(cl, "checker.Checker", append(c20Labels(chain), "logic-error="+k.Name), map[string]any{"chain": c20Names(chain), "observed": d}, map[string]any{"chain": chain, "logic_error": k.Name})
+				}
+			}
+		})
+		run.Set("chains_with_other_error_values", len(chains)*len(c20ErrKinds))
 	}
 	c20Kinds(run)
 	return run.Finish()
